@@ -178,7 +178,7 @@ func jobString(j job) string {
 
 // diagInSubprocess runs one input in a fresh worker and turns a death into a signature.
 func diagInSubprocess(scr string, si int, s *wire.Seed, input []byte) diagResult {
-	res := par.Procs([]string{jobString(job{Op: "diag", Seed: si, Input: hex.EncodeToString(input)})}, scr, par.Opts{MemMB: workerMemMB, Timeout: 5 * time.Minute, Parallel: 1})
+	res := par.Procs([]string{jobString(job{Op: "diag", Seed: si, Input: hex.EncodeToString(input)})}, scr, par.Opts{MemMB: workerMemMB, Timeout: 5 * time.Minute, Parallel: 1, Env: []string{"GOMAXPROCS=2"}})
 	return diagOf(res[0], s)
 }
 
@@ -457,7 +457,7 @@ func main() {
 				}
 				procs += len(dj)
 				t1 := time.Now()
-				dres := par.Procs(dj, scr, par.Opts{MemMB: workerMemMB, Timeout: 5 * time.Minute})
+				dres := par.Procs(dj, scr, par.Opts{MemMB: workerMemMB, Timeout: 5 * time.Minute, Env: []string{"GOMAXPROCS=2"}})
 				if os.Getenv("VERIF_C02_DEBUG") != "" {
 					fmt.Fprintf(os.Stderr, "  diag: %d jobs in %.1fs\n", len(dj), time.Since(t1).Seconds())
 				}
